@@ -318,6 +318,11 @@ def judge_c08(ctx, idx, op, impl, mi, ms, reason):
         ctx.count("serve_herr")
         if len(calls) != k + 1 or wlen != sum(al[:k]):
             bad = "after a handler failure at position %d: %d calls, %d octets written (expected %d calls, %d octets)" % (k, len(calls), wlen, k + 1, sum(al[:k]))
+    elif "unencodable" in lab:
+        k = int(lab["unencodable"])
+        ctx.count("serve_unencodable")
+        if len(calls) != k + 1 or wlen != sum(al[:k]):
+            bad = "answer %d cannot be encoded: %d calls, %d octets written (expected %d calls, %d octets: nothing of a frame that cannot be produced)" % (k, len(calls), wlen, k + 1, sum(al[:k]))
     elif "bad" in lab:
         k = int(lab["bad"])
         ctx.count("serve_malformed_kind" + lab.get("kind", "?"))
